@@ -24,6 +24,11 @@ func init() {
 // pureFilter checks that fn returns either its slice parameter or a slice built by
 // append(acc, elem) of unmodified elements of that parameter indexed by a forward induction.
 func pureFilter(fn *ssa.Function, param *ssa.Parameter) (bool, string) {
+	return pureFilterSrc(fn, func(v ssa.Value) bool { return v == ssa.Value(param) })
+}
+
+// pureFilterSrc is pureFilter with an arbitrary recogniser of the input slice.
+func pureFilterSrc(fn *ssa.Function, isSrc func(ssa.Value) bool) (bool, string) {
 	if len(eng.Returns(fn)) == 0 {
 		return false, "no return"
 	}
@@ -69,7 +74,23 @@ func pureFilter(fn *ssa.Function, param *ssa.Parameter) (bool, string) {
 	}
 	for _, r := range eng.Returns(fn) {
 		v := r.Results[0]
-		if v == ssa.Value(param) || isAcc(v) {
+		if isSrc(v) || isAcc(v) {
+			continue
+		}
+		// &T{Field: acc}: a fresh collection holding the accumulator
+		holdsAcc := false
+		if al, ok := v.(*ssa.Alloc); ok {
+			for _, r := range *al.Referrers() {
+				if fa, ok := r.(*ssa.FieldAddr); ok {
+					for _, rr := range *fa.Referrers() {
+						if st, ok := rr.(*ssa.Store); ok && isAcc(st.Val) {
+							holdsAcc = true
+						}
+					}
+				}
+			}
+		}
+		if holdsAcc {
 			continue
 		}
 		return false, "returns a slice that is neither the input nor the filtered accumulator"
@@ -103,7 +124,7 @@ func pureFilter(fn *ssa.Function, param *ssa.Parameter) (bool, string) {
 					return false, "an appended element is computed, not copied from the input (fragments would be altered or invented)"
 				}
 				src, ok := ld.X.(*ssa.IndexAddr)
-				if !ok || src.X != ssa.Value(param) {
+				if !ok || !isSrc(src.X) {
 					return false, "an appended element does not come from the input slice"
 				}
 				if _, ok := eng.Induction(src.Index); !ok {
@@ -116,11 +137,11 @@ func pureFilter(fn *ssa.Function, param *ssa.Parameter) (bool, string) {
 	bad := false
 	eng.Instrs(fn, false, func(in ssa.Instruction) {
 		if st, ok := in.(*ssa.Store); ok {
-			if ia, ok := st.Addr.(*ssa.IndexAddr); ok && ia.X == ssa.Value(param) {
+			if ia, ok := st.Addr.(*ssa.IndexAddr); ok && isSrc(ia.X) {
 				bad = true
 			}
 			if fa, ok := st.Addr.(*ssa.FieldAddr); ok {
-				if ia, ok := fa.X.(*ssa.IndexAddr); ok && ia.X == ssa.Value(param) {
+				if ia, ok := fa.X.(*ssa.IndexAddr); ok && isSrc(ia.X) {
 					bad = true
 				}
 			}
